@@ -272,13 +272,14 @@ type vf15Case struct {
 	Trailing   string // "", or what follows the real config in the list: a second usable config (key rotation) / an unknown version
 	RetryCount int    // reject: number of configs the server offers for retry (>= 1)
 	OlderKeys  int    // accept: number of other keys (other config ids / key pairs) the server lists BEFORE the matching one
+	Warm       bool   // HelloGolang, accepting server: a first connection fills the session cache, so that the judged hello carries a PSK
 	Prebuild   int    // number of explicit BuildHandshakeState calls before Handshake (0-2): the hello is marshalled and sealed again each time
 	SpecPath   string // "" = predefined ID; "custom" = HelloCustom + ApplyPreset(UTLSIdToSpec(ID)); "custom-sni" = the same with SNIExtension.ServerName already filled in by the caller
 }
 
 func (c vf15Case) String() string {
-	return fmt.Sprintf("%s/%s id=%d suites=%v maxname=%d public=%q secret=%q leading=%q trailing=%q retry=%d olderkeys=%d specpath=%q prebuild=%d seed=%d",
-		c.Ident.Name, c.Mode, c.ConfigID, c.Suites, c.MaxNameLen, c.Public, c.Secret, c.Leading, c.Trailing, c.RetryCount, c.OlderKeys, c.SpecPath, c.Prebuild, c.Seed)
+	return fmt.Sprintf("%s/%s id=%d suites=%v maxname=%d public=%q secret=%q leading=%q trailing=%q retry=%d olderkeys=%d specpath=%q prebuild=%d warm=%v seed=%d",
+		c.Ident.Name, c.Mode, c.ConfigID, c.Suites, c.MaxNameLen, c.Public, c.Secret, c.Leading, c.Trailing, c.RetryCount, c.OlderKeys, c.SpecPath, c.Prebuild, c.Warm, c.Seed)
 }
 
 const vf15Alnum = "abcdefghijklmnopqrstuvwxyz0123456789"
@@ -298,6 +299,13 @@ func vf15GenLabel(rt *rapid.T, label string, min, max int) string {
 func vf15GenCase(rt *rapid.T, idents []vf15Ident) vf15Case {
 	c := vf15Case{}
 	c.Ident = idents[rapid.IntRange(0, len(idents)-1).Draw(rt, "ident")]
+	if rapid.IntRange(0, 4).Draw(rt, "ident_golang") == 0 {
+		for _, id := range idents {
+			if id.Golang {
+				c.Ident = id
+			}
+		}
+	}
 	c.Mode = vf15Modes[[]int{0, 0, 1, 1, 1, 2, 2, 3, 4, 5}[rapid.IntRange(0, 9).Draw(rt, "mode")]]
 	c.Seed = rapid.Uint64().Draw(rt, "seed")
 	c.SecretRand = vf15GenLabel(rt, "secret", 12, 40)
@@ -345,6 +353,7 @@ func vf15GenCase(rt *rapid.T, idents []vf15Ident) vf15Case {
 	c.RetryCount = rapid.IntRange(1, 2).Draw(rt, "retryCount")
 	c.OlderKeys = rapid.IntRange(0, 3).Draw(rt, "olderServerKeys")
 	c.Prebuild = rapid.SampledFrom([]int{0, 0, 1, 2}).Draw(rt, "prebuild")
+	c.Warm = rapid.Bool().Draw(rt, "warm_session_cache")
 	if !c.Ident.Golang {
 		c.SpecPath = rapid.SampledFrom([]string{"", "", "custom", "custom-sni"}).Draw(rt, "specPath")
 	}
@@ -520,6 +529,20 @@ func vf15Run(st *vfStats, t vfFataler, c vf15Case) {
 		scfg.CurvePreferences = []CurveID{g}
 	}
 
+	if c.Warm && c.Ident.Golang && !reject {
+		// resumption inside ECH: the PSK travels in the inner hello, and after a HelloRetryRequest its binder is recomputed
+		// over the inner transcript
+		ccfg.ClientSessionCache = NewLRUClientSessionCache(4)
+		scfg.SetSessionTicketKeys([][32]byte{{1, 2, 3, byte(c.Seed)}})
+		warmS := scfg.Clone()
+		warmS.CurvePreferences = nil
+		wp := vfNewPair(ccfg, c.Ident.ID, warmS)
+		if cerr, serr := wp.Handshake(); cerr == nil && serr == nil && wp.Echo([]byte("w"), []byte("W")) == nil {
+			st.Class("warm-session-cache")
+		}
+		wp.Close()
+		res.serverSawSNI = nil
+	}
 	pair := vfNewPair(ccfg, c.Ident.ID, scfg)
 	if c.SpecPath != "" && !c.Ident.Golang {
 		// the same fingerprint through the custom-spec path; a hand-written spec often names the host in its SNIExtension
@@ -758,7 +781,7 @@ func vf15DirectedCase(id vf15Ident, mode string, n int) vf15Case {
 		Ident: id, Mode: mode, Seed: uint64(1000 + n),
 		Secret: fmt.Sprintf("hidden%02dservicename.c15.test", n), SecretRand: fmt.Sprintf("hidden%02dservicename", n),
 		Public: "public.c15.test", ConfigID: uint8(17 * n), Suites: []vf15Suite{{1, 1}, {1, 2}, {1, 3}},
-		MaxNameLen: uint8(n * 37), RetryCount: 1 + n%2, OlderKeys: n % 3, SpecPath: []string{"", "custom-sni", "custom", ""}[n%4], Prebuild: []int{0, 1, 0, 2, 1}[n%5],
+		MaxNameLen: uint8(n * 37), RetryCount: 1 + n%2, OlderKeys: n % 3, SpecPath: []string{"", "custom-sni", "custom", ""}[n%4], Prebuild: []int{0, 1, 0, 2, 1}[n%5], Warm: n%2 == 0,
 	}
 }
 
@@ -785,6 +808,12 @@ func TestVerifC15Directed(t *testing.T) {
 		for _, mode := range vf15Modes {
 			n++
 			vf15Run(st, t, vf15DirectedCase(id, mode, n))
+			if id.Golang {
+				// HelloGolang both with a cold and with a warm session cache (PSK inside the inner hello)
+				c := vf15DirectedCase(id, mode, n)
+				c.Warm = !c.Warm
+				vf15Run(st, t, c)
+			}
 		}
 	}
 }
